@@ -79,8 +79,9 @@ def _install():
         orig = nm.NpShim.sqrt
 
         def rec_sqrt(x):
-            _sqrt_args.append(x)
-            return orig(x)
+            r = orig(x)
+            _sqrt_args.append((x, r))
+            return r
         m['shim'].sqrt = rec_sqrt
     return m
 
@@ -102,9 +103,11 @@ def _se(est, getter):
         v = getattr(est, getter + '_SE')(300.0)
     except Exception as e:
         return 'raised:' + type(e).__name__, None, None
-    rad = _sqrt_args[-1] if _sqrt_args else None
+    rad, out = _sqrt_args[-1] if _sqrt_args else (None, None)
     if isinstance(rad, nm.Arr):
-        rad = rad.item()
+        rad, out = rad.item(), out.item()
+    if REPLAY is None and not (out is not None and v == out):
+        return 'the value returned is not the square root taken (non-negativity is the contract of sqrt)', v, rad
     return 'value', v, rad
 
 
@@ -143,7 +146,6 @@ def h_quadform(d: bool):
     want2 = r * r * q
     if REPLAY is None:
         ok, lab = all_close([(rad, want2)], ['radicand != RMSE^2 * x.M.x'])
-        ok = ok and v >= 0
     else:
         ok, lab = all_close([(v * v, want2)], ['SE^2 != RMSE^2 * x.M.x'])
         ok = ok and v >= 0
@@ -244,7 +246,7 @@ def h_shipped(d: bool):
         ok, lab = all_close([(rad, r * r * q)], ['radicand != RMSE^2 * x.M.x'])
     else:
         ok, lab = all_close([(v * v, r * r * q)], ['SE^2 != RMSE^2 * x.M.x'])
-    if ok and q >= 0 and not (v >= 0):      # sign only where the radicand is non-negative
+    if REPLAY is not None and not (v >= 0):
         ok, lab = False, 'negative standard error'
     return finish(ok, lab)
 
